@@ -64,6 +64,8 @@ var zzSeqSpecs = []string{
 	`!S1F1|!H->E|<~!L~<~!A|x~>~<~!A|x~>~>~.`,
 	// invalid item type (error), missing direction (warning)
 	`!S1F1|!W|<~Q|1~>~.`,
+	// a quoted string containing the comment delimiter and a keyword look-alike
+	`!S1F1|!H->E|Nm|<~!L~<~!A|"a // b"|!0x2F~>~<~!A|"<L T>"~>~>~.`,
 	// size declarations with optional white space inside the brackets, diagnostics behind them
 	`!S1F1|!H->E|<~!L~[^1^..^3^]~<~!A~[^2^..^]|"abc"~>~<~!U1~[^1^]|300~>~>~.|!S1F2|<~!B|400~>~.`,
 }
